@@ -10,6 +10,11 @@ import (
 	"golang.org/x/tools/go/ssa"
 )
 
+func isSignedInt(t types.Type) bool {
+	b, ok := t.Underlying().(*types.Basic)
+	return ok && b.Info()&types.IsInteger != 0 && b.Info()&types.IsUnsigned == 0
+}
+
 func one(st *State, v *Term) []alt { return []alt{{st: st, val: v}} }
 
 func tupleOf(vs ...*Term) *Term { return mk("tuple", "", nil, vs...) }
@@ -96,6 +101,10 @@ func (x *Exec) step(fr *Frame, ins ssa.Instruction, st *State) []alt {
 		idx := x.val(fr, ins.Index)
 		if bc, ok := x.C.(BoundsClient); ok {
 			bc.OnBounds(x, st, fr, ins, "index", base, idx, nil)
+		}
+		if _, isB := x.C.(BoundsClient); !isB && !idx.isConst() && isSignedInt(ins.Index.Type()) {
+			// the index expression did not panic: 0 <= idx on the paths that go on
+			st.setFact(tLt(idx, tConst("0", types.Typ[types.Int])), false)
 		}
 		base, idx = x.normIndex(base, idx)
 		return one(st, mk("index", "", nil, base, idx))
